@@ -62,8 +62,10 @@ def run(ctx):
     # (B) C->S: every toy order with every s
     for n in range(2, 65 if quick else 301):
         for s in range(1, n):
-            for enc in encs:
-                add(enc, n, 1 % n, s)
+            # r in an algebraic relation to s (equal, the reflection, adjacent), and every r for the smallest orders
+            for r_ in (range(n) if n <= (12 if quick else 40) else sorted({1 % n, s, n - s, (s + 1) % n})):
+                for enc in encs:
+                    add(enc, n, r_, s)
     # production orders and awkward orders, structured s
     orders = sigcommon.production_orders(ecdsa) + [("extra", n) for n in sigcommon.EXTRA_ORDERS + ([] if quick else sigcommon.HUGE_ORDERS[:1])]
     for name, n in orders:
@@ -81,6 +83,11 @@ def run(ctx):
             for s in svals:
                 for enc in encs:
                     add(enc, n, rnd.randrange(1, n), s)
+        # r equal to s, to its reflection, and sharing s's trailing bytes
+        for s in svals[:: max(1, len(svals) // 12)]:
+            for r_ in (s, n - s, (s % 65536) + 65536 * (n >> 40)):
+                for enc in encs:
+                    add(enc, n, r_ % n, s)
     ctx.evaluations += len(events)
     bad, st = core.validate_traces(ctx.workdir, "SigTrace", sigcommon.TRACE_CFG, events)
     ctx.add_stats(st)
@@ -130,7 +137,7 @@ def run(ctx):
             if found >= (1 if quick else 4):
                 break
     ctx.evaluations += n_eq
-    ctx.rule = ("events = calls of the three sigencode_*_canonize on (order, r, s); orders: all 2..%d with all s, "
+    ctx.rule = ("events = calls of the three sigencode_*_canonize on (order, r, s); orders: all 2..%d with all s and r in {1, s, n-s, s+1} (every r for the smallest orders), "
                 "17 curve orders, %d awkward orders around 2^53/2^64/2^600 with s in a structured band around n/2; "
                 "non-trivial = distinct (n, s) with 2s > n (reflection needed) or |2s - n| <= 8"
                 % (64 if quick else 300, len(sigcommon.EXTRA_ORDERS)))
